@@ -61,7 +61,13 @@ def draw_cfg(st):
         "eager": bool(st.choose(2, "eager")),
         "p_crash": [0.01, 0.05, 0.002][st.choose(3, "p_crash")],
         "p_crash_file": [0.3, 0.1, 0.6][st.choose(3, "p_crash_file")],
+        # real-OS leg: the same program in a forked child against a real file, SIGKILLed at a drawn
+        # yield point; validates SimFile's claim that flushed data survives process death
+        "real_os": st.choose(50, "real_os") == 49,
     }
+    if cfg["real_os"]:
+        world = "seq"
+        cfg["world"] = "seq"
     if world == "threads":
         cfg["n_actors"] = 2 + st.choose(2, "actors")
         cfg["p_switch"] = [0.05, 0.2][st.choose(2, "p_switch")]
@@ -130,8 +136,109 @@ def run_one(seed, dec):
             rc.fail_v(v)
     tags = tuple(sorted(s.tag for s in rc.snaps))
     nontrivial = any(s.inflight or s.tag.startswith("file.") for s in rc.snaps)
-    return base.result(rc, prog, nontrivial=nontrivial, distinct_extra=tags,
-                       extra_stats={"crash_points": len(rc.snaps)})
+    extra = {"crash_points": len(rc.snaps)}
+    if cfg["real_os"] and rc.violation is None:
+        try:
+            extra.update(real_os_leg(seed, dec, cfg, prog, rc))
+        except Violation as v:
+            rc.fail_v(v)
+    return base.result(rc, prog, nontrivial=nontrivial, distinct_extra=tags, extra_stats=extra)
+
+
+# ------------------------------------------------------------- real-OS leg
+def real_os_leg(seed, dec, cfg, prog, sim_rc):
+    """Run the same program in a forked child that logs to a *real* file and
+    SIGKILLs itself at a drawn yield point; check the file the kernel kept."""
+    import os
+    import shutil
+    import signal
+    import tempfile
+    from esim.dec import Decisions
+    expected = sim_rc.file.os_cache
+    total = sim_rc.sched.steps
+    k = dec.stream("realkill").choose(total + 2, "kill-at")
+    recorded = dec.recorded()
+    tmp = tempfile.mkdtemp(prefix="esim-c11-")
+    path = os.path.join(tmp, "log")
+    r, w = os.pipe()
+    pid = os.fork()
+    if pid == 0:
+        status = 3
+        try:
+            os.close(r)
+            dec2 = Decisions(replay=recorded)
+            cfg2 = dict(cfg)
+            rc2 = RunCtx(ID, seed, dec2, cfg2)
+            count = [0]
+            steps = [0]
+
+            def counting(message):
+                count[0] += 1
+
+            def on_return(cid, label):
+                os.write(w, b"%d\n" % count[0])
+
+            rc2.on_return = on_return
+
+            def setup2(rc, interp):
+                f = open(path, "ab")
+                rc.eliot.add_destinations(rc.eliot.FileDestination(file=f), counting)
+
+                def observer(s, actor, tag):
+                    steps[0] += 1
+                    if steps[0] == k:
+                        os.kill(os.getpid(), signal.SIGKILL)
+                rc.sched.observers.append(observer)
+
+            run_program(rc2, prog, setup2)
+            status = 0
+        except BaseException:  # noqa
+            status = 4
+        finally:
+            os._exit(status)
+    os.close(w)
+    acks = b""
+    while True:
+        chunk = os.read(r, 65536)
+        if not chunk:
+            break
+        acks += chunk
+    os.close(r)
+    _pid, st = os.waitpid(pid, 0)
+    try:
+        with open(path, "rb") as f:
+            data = f.read()
+    except FileNotFoundError:
+        data = b""
+    shutil.rmtree(tmp, ignore_errors=True)
+    killed = os.WIFSIGNALED(st) and os.WTERMSIG(st) == signal.SIGKILL
+    if not killed and not (os.WIFEXITED(st) and os.WEXITSTATUS(st) == 0):
+        from esim.sched import HarnessError
+        raise HarnessError("real-OS child ended with status %r" % (st,))
+    acked = 0
+    for line in acks.split(b"\n"):
+        if line.strip():
+            acked = max(acked, int(line))
+    if not expected.startswith(data):
+        raise Violation(("real_os_mismatch", {"killed": killed}),
+                        "real file after %s holds %r..., the simulated disk of the same program holds %r..." % (
+                            "SIGKILL at yield point %d" % k if killed else "normal exit",
+                            data[-80:], expected[max(0, len(data) - 80):len(data)]))
+    complete = data.count(b"\n")
+    if complete < acked:
+        raise Violation(("real_os_ack_lost", {"killed": killed}),
+                        "child acknowledged %d messages before it was killed at yield point %d, the file holds %d "
+                        "complete lines" % (acked, k, complete))
+    if not killed and data != expected:
+        raise Violation("real_os_mismatch", "child exited normally but the file differs from the simulated one")
+    lines = data.split(b"\n")[:-1]
+    check_parse(sim_rc, Snap(0, "real_os", data, False), [json.loads(x.decode("utf-8")) for x in lines],
+                sim_rc.tap.records)
+    sim_rc.count_fault("real_sigkill" if killed else "real_clean_exit")
+    tail = data.split(b"\n")[-1]
+    if tail:
+        sim_rc.count_fault("real_torn_tail")
+    return {"real_os_forks": 1, "real_os_killed": int(killed)}
 
 
 def key_of(m):
